@@ -84,6 +84,23 @@ def main_for(prop):
         rep.coverage["lemma"] = ("L-cuts (vf/lemmas/Chunking.lean, checked by lean on every run): a driver that dispatches one byte at a time on the stored state (H1: obligations "
                                  "coherence/dispatch/consume) and for which OK-at-a-cut followed by re-entry is the identity (H2: return-OK sites, prologue end check) yields the same events, codes at the same "
                                  "absolute offsets and final state for every chunking.  The correspondence between the C text and that driver is what the per-program obligations establish; it is not itself a Lean statement.")
+    if prop == "C03":
+        # capacity arithmetic behind every printed bound, for all sizes / flag values (pyvc on the real AST)
+        from . import c03_proofs
+        c03_proofs.run(rep, "C03")
+        spec = dict(spec)
+        spec["text"] += (" In addition, for all programs (pyvc on the real AST): OutputStorage.effective_string_size is size - 1 for terminated and size for unterminated strings (symbolic size, z3); the bounds, "
+                         "element accesses and string declarations the generator prints (_generate_buflike_length_expr / _index_expr, _get_state_object_out_declaration) are the numerals of exactly those capacities, "
+                         "an array of the declared size or a pointer, uint8_t exactly with strings-as-u8 (representative sizes, all flag values).")
+    if prop in ("C02", "C10"):
+        # the two decisions of the generator that chunking and the start-pointer protocol hinge on, for all flag values and action lists:
+        # when a transition body jumps straight to the next case (and its label exists), and when feed() guards against an empty chunk
+        from . import codegen_proofs
+        codegen_proofs.run(rep, prop)
+        spec = dict(spec)
+        spec["text"] += (" In addition, for all flag values and every combination of what they inspect (pyvc on the real AST + z3): CodegenCtx._transition_will_directly_jump is true exactly when the transition is not a "
+                         "fall-through (or excl_fall), its target is not accepting (or strict done tokens are on) and every action reports override mode NONE; CodegenCtx._needs_end_check is true exactly when "
+                         "zero-length input support is on or some action on some transition may return early.")
     if prop == "C06":
         # byte tests: for ALL transitions (symbol lists), thresholds and flag values the emitted condition denotes exactly the symbols
         from . import cond_proofs
